@@ -1,4 +1,5 @@
 import ActsModel.Spec.Ref
+import ActsModel.Gen.Branch
 
 /-!
 # C04 — Control flow conforms to the YAML: order, branch selection, skips
@@ -9,6 +10,17 @@ the interpretation node by node at every quiescent point, under every release or
 -/
 namespace Acts.C04
 open Acts.Ref
+
+/-- K1 (`Branch::init`, `Task::is_ready`, `Step::next`, `Step::review` read from the source on this run): the rules the reference
+interpretation of branches rests on. A branch with `needs` waits before its own `if` is looked at and is ready as soon as one named
+sibling has ended (skipped included); a failing condition skips the branch, as does a branch with neither `if` nor `else`; the `else`
+branch is ready when every sibling was skipped, is closed once a sibling has ended otherwise, and runs at once when it has no siblings;
+a pass of the step over its waiting branches resumes every one that has become ready. -/
+theorem branch_rules :
+    Acts.Gen.needsWaitBeforeIf = true ∧ Acts.Gen.needsReadyAnyEnded = true ∧ Acts.Gen.needsRuleBeforeElseRule = true ∧
+    Acts.Gen.condFalseSkips = true ∧ Acts.Gen.plainBranchSkipped = true ∧ Acts.Gen.loneElseRuns = true ∧
+    Acts.Gen.elseReadyAllSkipped = true ∧ Acts.Gen.elseClosedWhenTaken = true ∧
+    Acts.Gen.nextWakesAll = true ∧ Acts.Gen.reviewWakesAll = true := by decide
 
 /-- the declaration order of the branches of a step does not matter: whether some condition holds … -/
 theorem anyCondHolds_perm {bs bs' : List RBranch} (h : bs.Perm bs') : anyCondHolds bs = anyCondHolds bs' := by
